@@ -1,5 +1,6 @@
 //! unit: u09c
-//! properties: C09 C02 C10
+//! properties: C09 C02 C10 C03
+//! note: also run for C03: the code it constrains lies inside mechanisms those properties name (a change made there for their sake must meet these clauses too)
 //! note: FundedChannel::monitor_updating_restored from `let mut pending_update_adds` to the end of the function (both exits): when a monitor update completes, the update_add_htlcs waiting to be decoded and the sources of the outbound HTLCs that this update committed (those in LocalAnnounced with a previous hop: they tell the manager which inbound HTLCs are now irrevocably forwarded, so that a restart does not forward them again) are handed over WHETHER OR NOT the peer is connected, together with everything computed above (forwards, failures, finalized claims, funding broadcast, channel_ready); only the revoke_and_ack / commitment update are withheld from a disconnected peer (reestablish regenerates them), and with a connected one they are released only if held; nothing stays held
 //! trusted: R15 (deep slice) with the field lists of the two MonitorRestoreUpdates expressions captured whole; R6: `E.iter().filter_map(|htlc| B).collect()` as an index loop, B carried verbatim as the body of a helper function (its `return Some(..)` / trailing `None` keep their meaning); R16 on `if let &P = &e`; R10: arguments of get_last_revoke_and_ack / get_last_commitment_update_for_send (a path callback, the logger) dropped; R9: `a |= b` on bools written `a = a || b`; R3: the log statement dropped
 //! trusted: env: FundedChannel / ChannelContext field skeletons; MonitorRestoreUpdates is the real field list over opaque items; HTLCPreviousHopData an opaque value with clone(); OutboundHTLCState / HTLCSource restricted to two variants each plus a catch-all; get_last_revoke_and_ack / get_last_commitment_update_for_send leave the context as it is and answer anything
